@@ -132,7 +132,7 @@ type Rec struct {
 	BlockRoot  Root
 	ParentRoot Root
 	State      *refspec.State
-	Trunk      bool
+	Head       bool
 }
 
 type Node struct {
@@ -159,7 +159,7 @@ type View struct {
 	derived map[rootSlot]*refspec.State
 }
 
-// NewView builds the tree from the recorded entries. The head is the last trunk record; the
+// NewView builds the tree from the recorded entries. The head is the record flagged as such; the
 // store's finalized checkpoint is the head state's (epoch 0 names the anchor block).
 func NewView(sp *refspec.Spec, recs []Rec) *View {
 	v := &View{Sp: sp, Blocks: map[Root]*Node{}, Known: map[rootSlot]*refspec.State{}, derived: map[rootSlot]*refspec.State{}}
@@ -171,7 +171,7 @@ func NewView(sp *refspec.Spec, recs []Rec) *View {
 			v.Blocks[r.BlockRoot] = &Node{Root: r.BlockRoot, Parent: r.ParentRoot, Slot: r.Slot, Post: r.State}
 		}
 		v.Known[rootSlot{r.BlockRoot, r.Slot}] = r.State
-		if r.Trunk {
+		if r.Head {
 			v.Head, v.HeadRoot = r.State, r.BlockRoot
 		}
 	}
